@@ -327,6 +327,9 @@ def _negotiate_release():
 
 def replay(rec):
     from pyvc.replay import run_replay
+    oid = rec.get("id", "")
+    if "ACSE.negotiate_release" in oid:
+        return run_replay("C07", dict(rec, id="C07/" + oid[len("C08/"):]))
     return run_replay("C08", rec, timeout=180)
 
 
